@@ -776,21 +776,42 @@ fn attr(a: &syn::Attribute) -> Option<String> {
     if !matches!(a.style, syn::AttrStyle::Outer) {
         return no(line!());
     }
-    // the spelling of the name does not matter (F34): a raw identifier is the identifier, and `derive_ex` may be written
-    // with the path of its crate; the comparison normalises the spelling of the attributes that are kept (`norm_attr_spelling`)
-    let name = attr_name(a.path());
-    match name.as_deref() {
+    // What the attribute *is* is not decided here: the path is handed over as written, with the tokens of the attribute
+    // and this side's reading of it under the most liberal rule (the last segment names a helper attribute); the model's
+    // `AttrPath.kind` chooses (Ext.lean, Props/AttrName.lean).  The comparison normalises the spelling of the attributes
+    // that are kept (`norm_attr_spelling`).
+    let p = a.path();
+    if p.segments.iter().any(|s| !s.arguments.is_none()) {
+        return no(line!());
+    }
+    let segs: Vec<String> = p.segments.iter().map(|s| q(&s.ident.to_string())).collect();
+    let last = p.segments.last().map(|s| unraw(&s.ident.to_string()).to_string());
+    let why = WHY.with(|w| w.get());
+    let cand: Option<String> = match last.as_deref() {
         Some("derive_ex") => match &a.meta {
             syn::Meta::List(l) if matches!(l.delimiter, syn::MacroDelimiter::Paren(_)) => {
-                Some(format!("(derive_ex {})", derive_ex_args(l.tokens.clone())?))
+                derive_ex_args(l.tokens.clone()).map(|x| format!("(derive_ex {x})"))
             }
-            _ => no(line!()),
+            _ => None,
         },
-        Some(n @ ("ord" | "partial_ord" | "eq" | "partial_eq" | "hash")) => Some(format!("(cmp {n} {})", helper_body(n, a)?)),
-        Some("debug") => Some(format!("(debug {})", helper_body("debug", a)?)),
-        Some("default") => Some(format!("(default {})", helper_body("default", a)?)),
-        _ => Some(format!("(foreign {})", toks(a.meta.to_token_stream()))),
+        Some(n @ ("ord" | "partial_ord" | "eq" | "partial_eq" | "hash")) => helper_body(n, a).map(|x| format!("(cmp {n} {x})")),
+        Some("debug") => helper_body("debug", a).map(|x| format!("(debug {x})")),
+        Some("default") => helper_body("default", a).map(|x| format!("(default {x})")),
+        _ => None,
+    };
+    if !attr_name(p).map_or(false, |n| HELPER_NAMES.contains(&n.as_str())) {
+        // a foreign attribute: a failed reading of its body is not a reason to leave the fragment
+        WHY.with(|w| w.set(why));
+    } else if cand.is_none() {
+        return None;
     }
+    Some(format!(
+        "(at {} {} {} {})",
+        b(p.leading_colon.is_some()),
+        list(segs),
+        toks(a.meta.to_token_stream()),
+        cand.unwrap_or_else(|| "nil".to_string())
+    ))
 }
 fn attrs(v: &[syn::Attribute]) -> Option<String> {
     let r: Option<Vec<String>> = v.iter().map(attr).collect();
